@@ -163,15 +163,18 @@ pub fn compare_public_opt(vt: &Vt, m: &Model, sb_tail: usize, trimmed: bool, abo
 }
 
 fn saved_eq(r: &avt::verif::SavedCtxState, m: &Saved, clamp: Option<(usize, usize)>) -> bool {
-    let (mut rc, mut rr, mut mc, mut mr) = (r.cursor_col, r.cursor_row, m.col, m.row);
+    let (mut rc, mut rr, mut mc, mut mr, mut xc, mut xr) = (r.cursor_col, r.cursor_row, m.col, m.row, m.xcol, m.xrow);
     if let Some((cols, rows)) = clamp {
         // a parked screen's saved position is clamped when that screen is shown again
         rc = rc.min(cols - 1);
         mc = mc.min(cols - 1);
+        xc = xc.min(cols - 1);
         rr = rr.min(rows - 1);
         mr = mr.min(rows - 1);
+        xr = xr.min(rows - 1);
     }
-    rc == mc && rr == mr && MPen::of(&r.pen) == m.pen && r.origin_mode == m.origin && r.auto_wrap_mode == m.autowrap
+    // (U9) clamped at every shrink, or not before it is restored
+    ((rc, rr) == (mc, mr) || (rc, rr) == (xc, xr)) && MPen::of(&r.pen) == m.pen && r.origin_mode == m.origin && r.auto_wrap_mode == m.autowrap
 }
 
 /// Hidden components, each of which has a public distinguishing continuation (DESIGN §2.1).
@@ -212,7 +215,10 @@ pub fn compare_hidden(vs: &VerifState, m: &Model) -> Option<Mismatch> {
             format!("margins real {}..{} model {}..{}", vs.top_margin, vs.bottom_margin, m.top, m.bottom),
         );
     }
-    if !saved_eq(&vs.saved_ctx, &m.saved, None) {
+    // positions are compared as a restore would see them - clamped to the current size: whether a
+    // saved position is clamped when the screen shrinks or only when it is restored is not promised
+    // (C17: "the restored position still lies inside the screen")
+    if !saved_eq(&vs.saved_ctx, &m.saved, Some((m.cols, m.rows))) {
         return mm(MisKind::HSaved, format!("saved context real {:?} model {:?}", vs.saved_ctx, m.saved));
     }
     if !saved_eq(&vs.other_saved_ctx, &m.other_saved, Some((m.cols, m.rows))) {
